@@ -1,6 +1,6 @@
 CONSTANTS Graphs = {"line", "tri", "dead", "selfl", "pair", "star4", "ring4"} T = 4 QE = {0, 1, 2, 3} QN = {0, 1, 2} NodeModes = {TRUE, FALSE} NEs = {FALSE}
   Widths = {0} Cuts = {"none", "dist", "init", "prob", "both"} MaxOps = 1 SAMPLE = 72 Moves = {"m11", "m00"} EMIT = FALSE
-  ExhGraphs = {"pair", "chain"} Debugs = {FALSE}
+  ExhGraphs = {"pair", "chain"} Debugs = {FALSE} REUSE = FALSE
 SPECIFICATION Spec
 INVARIANT C01
 INVARIANT C03b
